@@ -271,6 +271,16 @@ fn assign_valid_indices(g: &mut Gen, def: &mut Def, use_discr: bool) {
 			}
 			v.discriminant = Some(k);
 			rust = i64::from(k);
+			// an index attribute next to an explicit discriminant: the attribute wins
+			if !v.skip && g.chance(96) {
+				let mut a = *g.pick(&[0u32, 2, 6, 42, 254]);
+				let mut tries = 0;
+				while (used_codec.contains(&a) || a == k) && tries < 300 {
+					a = (a + 1) % 256;
+					tries += 1;
+				}
+				v.index_attr = Some(a);
+			}
 		}
 		if used_rust.contains(&rust) {
 			// an implicit Rust discriminant would collide: pin a fresh explicit one only when allowed,
